@@ -72,9 +72,17 @@ pub fn format_all(directory: &Option<PathBuf>, args: &CliArguments) -> Result<Fo
     let entries = WalkDir::new(directory)
         .into_iter()
         // The given directory itself is always visited, whatever its name is (e.g. `.`).
-        .filter_entry(|e| e.depth() == 0 || !is_hidden(e))
-        .filter_map(Result::ok);
+        .filter_entry(|e| e.depth() == 0 || !is_hidden(e));
     for entry in entries {
+        let entry = match entry {
+            Ok(entry) => entry,
+            Err(e) => {
+                // A directory that is missing or cannot be listed is a failure, not an empty directory.
+                error!("failed to walk the directory: {e}");
+                summary.error_count += 1;
+                continue;
+            }
+        };
         if !(entry.file_type().is_file() && entry.path().extension() == Some("typ".as_ref())) {
             continue;
         }
